@@ -30,6 +30,9 @@ type Env struct {
 
 const worldSeed = 4040
 
+// index of the first scenario of scenarios() that was added for status/permission divergence
+const firstDivergenceScenario = 12
+
 func newEnv() *Env {
 	w := aclh.NewWorld(worldSeed)
 	root := w.NewRoot(1, "space-c04")
@@ -754,7 +757,7 @@ func main() {
 	}
 
 	r := vlib.NewRand(o.Seed)
-	perScenario := 70
+	perScenario := 60
 	walks, walkLen := 20, 12
 	deepPerScenario, maxSweeps := 3, 2
 	if o.Tier == "thorough" {
@@ -778,9 +781,28 @@ func main() {
 		if len(div) > 0 {
 			w.Stat("scenario_with_status_permission_divergence")
 		}
+		isDiv := map[int]bool{}
+		for _, a := range div {
+			isDiv[a] = true
+		}
+		aimedAt := func(rec aclh.Rec) bool {
+			aimed := isDiv[rec.Author]
+			for _, c := range rec.Cs {
+				aimed = aimed || isDiv[c.A]
+				for _, ap := range c.L {
+					aimed = aimed || isDiv[ap.A]
+				}
+				for _, id := range c.Ids {
+					aimed = aimed || isDiv[id]
+				}
+			}
+			return aimed
+		}
 		for di, rec := range directed(s) {
-			// quick tier: every escalation attempt through accept / ownership change, one quarter of the rest
-			essential := len(rec.Cs) > 0 && (rec.Cs[0].K == "accept" || rec.Cs[0].K == "owner")
+			// quick tier: every escalation attempt through accept / ownership change (in the scenarios added for
+			// status/permission divergence, which differ from the earlier ones in the divergent accounts only: those
+			// aimed at a divergent account), one quarter of the rest
+			essential := len(rec.Cs) > 0 && (rec.Cs[0].K == "accept" || rec.Cs[0].K == "owner") && (si < firstDivergenceScenario || aimedAt(rec))
 			if !full && !essential && di%4 != si%4 {
 				continue
 			}
@@ -792,18 +814,8 @@ func main() {
 			w.Stat("gen_directed")
 		}
 		// the systematic alphabet: everything aimed at the divergent accounts, a sixth of the rest (quick tier)
-		isDiv := map[int]bool{}
-		for _, a := range div {
-			isDiv[a] = true
-		}
 		for ai, rec := range alphabet(s, nil) {
-			aimed := isDiv[rec.Author]
-			for _, c := range rec.Cs {
-				aimed = aimed || isDiv[c.A]
-				for _, ap := range c.L {
-					aimed = aimed || isDiv[ap.A]
-				}
-			}
+			aimed := aimedAt(rec)
 			if !full && !aimed && ai%6 != si%6 {
 				continue
 			}
